@@ -31,6 +31,9 @@ GEN_TAKES_PROP = True
 KINDS = ("generic_c", "generic_u", "generic_us", "read1", "readfrag", "write1", "writefrag", "rmw", "multiread",
          "multiwrite", "upload_page", "upload_template", "upload_template_attrs", "register", "list_identity", "plc_info",
          "discover", "readbit", "readboolarr")
+# calls that answer with Tag objects (an error reply makes these falsy; the other calls may raise a library exception)
+TAG_KINDS = {"generic_c", "generic_u", "generic_us", "read1", "readfrag", "write1", "writefrag", "rmw", "multiread",
+             "multiwrite", "readbit", "readboolarr"}
 # services for which status 6 means "more to come" and the library must continue
 CONTINUE_6 = {"readfrag", "upload_page", "upload_template"}
 # members of the library's MULTI_PACKET_SERVICES where the statement does not decide what 6 means
@@ -445,6 +448,12 @@ def judge(sc, env, kind, fault, state, outcome, res, hits, ref):
         return      # corruption did not touch the status words; nothing more to decide
     # ---- well-formed replies: classification must follow the status words --------
     if c["cls"] == "encap":
+        if outcome != "ok" and kind in TAG_KINDS and mt == "encap":
+            # a well-formed error reply is answered with a falsy result that carries the text, not with an exception
+            hits.hit("C13", "reply.classify", f"{kind}: header-only encapsulation error 0x{c['status']:x} made the call raise "
+                     f"{type(res).__name__}: {res} instead of returning a falsy result", outcome="exception-on-error",
+                     status="encap", **f)
+            return
         if outcome != "ok":
             bad = []
         elif kind in ("multiread", "multiwrite"):
